@@ -52,6 +52,9 @@ def c13(tier, seed):
               desc="two-copy monotonicity r1<=r2"),
         Query("c13_heard", "c13_band.c", "h_heard", unwind=3, bounds=b, backends=("minisat", "cadical"),
               desc="band_on_hello_received bookkeeping"),
+        Query("c13_tick_block", "c12_tick.c", "h_tick_block", unwind=17, backends=("cadical", "kissat", "minisat"), timeout=900, mem_gb=10,
+              bounds={"state": "arbitrary automata/table/clock state as in C12, prior count in [45,10000], r in [0,2^32)", "tick": "one automata_tick; block timer due, Hello timer due or not"},
+              desc="end-of-block path of automata_tick: count update and rescheduling by the formula, also when the Hello is sent in the same tick"),
     ]
     return qs
 
